@@ -1,7 +1,7 @@
 """C14  The operation-head store never loses a published operation  (partial: per-step guarantee + interleaving lemma)
 
 (G) real code from MIR: SimpleOpHeadsStore::update_op_heads (async_trait body), add_op_head, remove_op_head (+ closures).
-    File-system calls are an effect log: fs::write(dir/hex(id)) = add(id), fs::remove_file(dir/hex(id)) = remove(id); every call may
+    File-system calls are an effect log: fs::write / File::create / OpenOptions::open(dir/hex(id)) = add(id), fs::remove_file(dir/hex(id)) = remove(id); every call may
     fail (symbolic outcome: Ok / NotFound / other error).  Operation ids are opaque atoms with symbolic equalities.
 (L) a z3 bounded model check of the abstract protocol extracted from (G) - "add the new head, then remove only its parents" - under
     every interleaving of <= 3 writers, with and without mutual exclusion, with crashes between any two steps: every published
@@ -60,7 +60,17 @@ def job_G(ix, job):
         if k == 0: return OK(UNIT)
         if k == 1: log.append(('notfound',)); return ERR(Agg([Enum('NotFound', [], 'ErrorKind')], 'io::Error'))
         log.append(('fail',)); return ERR(Agg([Enum('Other', [], 'ErrorKind')], 'io::Error'))
-    over = [(re.compile(r'as ObjectId>::hex$|OperationId::hex$'), hex_stub), (re.compile(r'^(std::fs::)?write::<'), fs_write), (re.compile(r'^(std::fs::)?remove_file::<'), fs_remove),
+    def fs_open(e, c, a):
+        # OpenOptions::open / File::create used to create the head file: Ok, AlreadyExists (tolerable, the head is there) or another error
+        log.append(('add', atom_of_path(a[-1])))
+        k = e.choose(3)
+        if k == 0: return OK(Agg([], 'File'))
+        if k == 1: log.append(('exists',)); return ERR(Agg([Enum('AlreadyExists', [], 'ErrorKind')], 'io::Error'))
+        log.append(('fail',)); return ERR(Agg([Enum('Other', [], 'ErrorKind')], 'io::Error'))
+    over = [(re.compile(r'OpenOptions::new$'), lambda e, c, a: Agg([], 'OpenOptions')),
+            (re.compile(r'OpenOptions::(write|create_new|create|truncate|append|read)$'), lambda e, c, a: a[0]),
+            (re.compile(r'OpenOptions::open::<|^(std::fs::)?File::create(_new)?::<'), fs_open),
+            (re.compile(r'as ObjectId>::hex$|OperationId::hex$'), hex_stub), (re.compile(r'^(std::fs::)?write::<'), fs_write), (re.compile(r'^(std::fs::)?remove_file::<'), fs_remove),
             (re.compile(r'io::Error::kind$'), lambda e, c, a: deref(a[0]).f[0]),
             (re.compile(r'as IoResultExt<.*>>::context::<|IoResultExt.*::context'), lambda e, c, a: a[0] if a[0].v == 'Ok' else ERR(Agg([a[0].f[0]], 'PathError'))),
             (re.compile(r'as Into<Box<dyn .*Error.*>>>::into$|as From<.*>>::from$'), lambda e, c, a: a[0])]
